@@ -156,13 +156,11 @@ def _handle_ConnectionUp (event):
 def _handle_LinkEvent (event):
   # When links change, update spanning tree
 
-  (dp1,p1),(dp2,p2) = event.link.end
-  if _prev[dp1][p1] is False:
-    if _prev[dp2][p2] is False:
-      # We're disabling this link; who cares if it's up or down?
-      #log.debug("Ignoring link status for %s", event.link)
-      return
-
+  # Note: we used to ignore events for links whose ports both have flooding
+  # disabled.  But a link that becomes bidirectional may be the only one
+  # joining two parts of the network, and ports of a link that has gone are
+  # host-facing again -- both need the tree (and flood bits) recomputed.
+  # _update_tree() skips ports whose flood bit doesn't change anyway.
   _update_tree()
 
 
